@@ -82,7 +82,7 @@ def _nontrivial(h):
     """A history exercises C13 non-trivially when a second registry exists while something is done through
     another one (so the frame clause has something to protect) or the default registry is asked to change."""
     return any(e["op"] in ("binop", "rebind", "convert") or (e["r"] == 0 and e["op"] in ("modify", "remove")) for e in h) or (
-        sum(1 for e in h if e["op"] in ("new", "lutalias", "lutcopy", "json", "deepcopy", "unpickle", "unitcopy")) >= 1 and len(h) >= 2
+        sum(1 for e in h if e["op"] in ("new", "lutalias", "lutcopy", "json", "deepcopy", "unpickle", "unitcopy", "handle")) >= 1 and len(h) >= 2
     )
 
 
@@ -94,8 +94,8 @@ def _model_verdicts(ck, res, label):
         ck.note({"model_counterexample": r["tag"], "history": [_short(e) for e in r["h"]]})
 
 
-SLIM = dict(ConvHows='{"to"}', PickleP='{"kfoo", "m"}', DPfx="{TRUE}", DScales="{2}", AddScales="{2}", ModScales="{4}", ReadKeys='{"kfoo", "km"}', ReadProbes='{"kfoo", "kfoo/km"}', BinP='{"foo", "m"}', BinF='{"mul", "add"}', CopyP='{"kfoo"}')
-FULL = dict(ConvHows='{"to", "in_units", "to_value", "convert_to_units"}', PickleP='{"foo", "kfoo", "m", "km"}', DPfx="{FALSE, TRUE}", DScales="{2, 4}", AddScales="{2, 4}", ModScales="{2, 4}", ReadKeys='{"foo", "kfoo", "m", "km"}', ReadProbes='{"foo", "kfoo", "m", "km", "foo*m", "kfoo/km"}', BinP='{"foo", "kfoo", "m"}', BinF='{"mul", "div", "add"}', CopyP='{"foo", "kfoo", "m"}')
+SLIM = dict(ConvHows='{"to"}', HandleH='{"copyreg", "unitcopy"}', PickleP='{"kfoo", "m"}', DPfx="{TRUE}", DScales="{2}", AddScales="{2}", ModScales="{4}", ReadKeys='{"kfoo", "km"}', ReadProbes='{"kfoo", "kfoo/km"}', BinP='{"foo", "m"}', BinF='{"mul", "add"}', CopyP='{"kfoo"}')
+FULL = dict(ConvHows='{"to", "in_units", "to_value", "convert_to_units"}', HandleH='{"copyreg", "unitcopy"}', PickleP='{"foo", "kfoo", "m", "km"}', DPfx="{FALSE, TRUE}", DScales="{2, 4}", AddScales="{2, 4}", ModScales="{2, 4}", ReadKeys='{"foo", "kfoo", "m", "km"}', ReadProbes='{"foo", "kfoo", "m", "km", "foo*m", "kfoo/km"}', BinP='{"foo", "kfoo", "m"}', BinF='{"mul", "div", "add"}', CopyP='{"foo", "kfoo", "m"}')
 
 
 def _write_cfg(ck, name, MaxRegs=2, MaxLen=3, ExportLen=3, Mixed="TRUE", Namespaces="TRUE", Editing="TRUE", WarmSet="{FALSE}", export="state", alphabet=None):
@@ -164,9 +164,9 @@ def run(ck):
     ]
     if quick:
         # mixed operations: creation route hidden, histories ending in a binary operation / re-binding / conversion
-        covers.append(("mixed3-slim", dict(MaxRegs=2, MaxLen=3, ExportLen=3, Namespaces="FALSE", alphabet=dict(SLIM, BinF='{"mul"}', PickleP='{"kfoo"}'), export="mixed"),
+        covers.append(("mixed3-slim", dict(MaxRegs=2, MaxLen=3, ExportLen=3, Namespaces="FALSE", alphabet=dict(SLIM, BinF='{"mul", "div", "add"}', PickleP='{"kfoo"}'), export="mixed"),
                        "state space MaxRegs=2 MaxLen=3 with mixed operations, slim alphabet, cover of the states reached by a mixed operation"))
-        ck.cov["bound"] = [{"MaxRegs": 2, "MaxLen": 3, "alphabet": "slim, no namespaces", "mixed": False, "routes_visible": True}, {"MaxRegs": 2, "MaxLen": 3, "alphabet": "slim, mul only", "mixed": True, "routes_visible": False}]
+        ck.cov["bound"] = [{"MaxRegs": 2, "MaxLen": 3, "alphabet": "slim, no namespaces", "mixed": False, "routes_visible": True}, {"MaxRegs": 2, "MaxLen": 3, "alphabet": "slim", "mixed": True, "routes_visible": False}]
     else:
         covers.append(("cover3-full", dict(MaxRegs=2, MaxLen=3, ExportLen=3, alphabet=FULL, export="state2"),
                        "state space MaxRegs=2 MaxLen=3 full alphabet incl. mixed operations, state cover export"))
